@@ -139,7 +139,10 @@ fn run_case(target: Target, spec: &WorldSpec, ops: &[Op], stats: &mut SeqStats, 
         }
         if let (Some(bi), Some((_, code))) = (step.bank, step.err) {
             let _ = bi;
-            if code == ERR_ASSET_CAPACITY || code == 6004 || code == 6005 {
+            if code == err_asset_capacity()
+                || code == u32::from(marginfi::errors::MarginfiError::BankLiabilityCapacityExceeded) as u64
+                || code == u32::from(marginfi::errors::MarginfiError::IllegalUtilizationRatio) as u64
+            {
                 stats.cap_frontier = true;
             }
         }
